@@ -66,7 +66,18 @@ def file_bytes(ext, payload, with_chart, key_only=False, unique=False, variant=N
     earlier run (a shared buffer, a cache) shows up as a foreign key in a later file.
     variant: None | 'unterminated' (the last parameter has neither ';' nor a line break behind it)
                   | 'crlf' (CRLF line ends, also inside a multi-line value)
+                  | 'empty' | 'commentonly' | 'chartsonly' (files without any header property)
     """
+    if variant == "empty":
+        return b""
+    if variant == "commentonly":
+        # no parameter at all: the loaded simfile is an empty mapping without charts
+        return b"// " + payload + b"\n\n"
+    if variant == "chartsonly":
+        # charts but no header property (an SSC file without VERSION is still an SSC file by its name)
+        if ext == ".ssc":
+            return b"#NOTEDATA:;\n#STEPSTYPE:dance-single;\n#DESCRIPTION:" + payload + b";\n#NOTES:\n0000\n;\n"
+        return b"#NOTES:\n     dance-single:\n     " + payload + b":\n     Easy:\n     1:\n     0,0:\n0000\n;\n"
     head = b"#VERSION:0.83;\n" if ext == ".ssc" else b""
     body = b"#TITLE:" + payload + b";\n#ARTIST:x;\n" + (b"#GENRE;\n" if key_only else b"")
     if unique:
